@@ -14,21 +14,23 @@ def _p(quick, thorough=None, extra=None):
 
 
 PROPS = {
-    'C01': _p(['E3']),
-    'C02': _p(['E3']),
+    'C01': _p(['E2', 'E3']),
+    'C02': _p(['E2', 'E3']),
     'C03': _p(['E3']),
-    'C04': _p(['E3']),
+    'C04': _p(['E2', 'E3']),
     'C06': _p(['E3']),
     'C08': _p(['E3']),
-    'C09': _p(['E3']),
+    'C09': _p(['E2', 'E3']),
     'C10': _p(['E3']),
     'C11': _p(['E3']),
     'C12': _p(['E3']),
-    'C14': _p(['E3']),
+    'C14': _p(['E2', 'E3']),
     'C15': _p(['E3']),
 }
 
 ENGINE_INFO = {
+    'E2': {'path': 'harness/vf/engines/e2.py + spec/TraceWords.tla, Filters.tla, TraceAPI.tla',
+           'kind': 'all arrangements (words over {left,right,both}) of two token sets up to a length bound x measure x threshold on the real filter_pair / index+find_candidates / joins; TLC judges outcomes against the KeepMust envelope and the transcribed algorithms'},
     'E3': {'path': 'harness/vf/engines/e3.py + spec/GenTables.tla, GenStrTables.tla, TraceAPI.tla, Semantics.tla',
            'kind': 'TLC enumerates all pairs of small tables; every pair is executed on the real joins / filter_tables under seeded configurations; TLC validates every recorded call against the property-level envelope'},
 }
